@@ -240,10 +240,12 @@ fn random_count_value(src: &mut Src, obs: &mut Obs) -> Res {
         0 | 1 => {
             obs.label("count");
             let k = (n_for_kid as i64 + src.range(-1, 1)).max(0);
+            // the number the result is compared with in any of its spellings (100, 1e2, 10e+01, ...)
+            let k_lit = if src.chance(1, 3) { crate::spell::re_num(src, &num_lit_int(k)) } else { num_lit_int(k) };
             Expr::Cmp(
                 Box::new(Cmpable::F(Func { name: "count".into(), args: vec![Arg::Q(argq.clone())] })),
                 *src.pick(&Op::ALL),
-                Box::new(Cmpable::Lit(Lit::Num(num_lit_int(k)))),
+                Box::new(Cmpable::Lit(Lit::Num(k_lit))),
             )
         }
         2 => {
